@@ -1,7 +1,7 @@
 SPECIFICATION Spec
 CONSTANTS
   SHAPES = {"map", "filter", "filter_map", "inspect", "flat_map", "flatten", "fold", "reduce", "sort", "sort_state", "fold_keyed", "reduce_keyed", "persist_replay", "persist_norep", "persist_empty", "for_each", "vec_push", "sink", "sink_compat", "send_push", "map_filter_flat_map", "sort_flat_map", "fold_keyed_map", "flat_map_fold", "filter_map_async", "flat_map_stream", "flatten_stream", "rf_ordered", "rf_unordered", "rf_ordered_w", "rf_unordered_w", "fanout", "unzip", "state_push", "flat_map_fanout", "fanout_flat_map", "unzip_persist", "demux_mixed", "demux_var"}
-  BADSHAPES = {"state_push", "filter_map_async"}
+  BADSHAPES = {}
   EMIT = TRUE
   MaxIn1 = 2
   MaxIn2 = 2
